@@ -34,22 +34,25 @@ def gen(rng, tier):
             grp = rng.choice(conf); A, B = rng.sample(grp, 2)
             A = [v for v in A if v != q]; B = [v for v in B if v != q]
             i = rng.randrange(len(ops) + 1); ops.insert(i, [2, A]); ops.insert(rng.randrange(i + 1, len(ops) + 1), [2, B])
-        if rng.random() < 0.15:
-            # firing sets that hold most of a larger graph and leave a DEEP complement (a tail whose far end has no edge into the set)
-            G = common.midsize_multigraph(rng) if rng.random() < 0.5 else common.mk_graph(rng.randint(7, 9), [], rng); n = G["n"]
-            if not G["edges"]: G = common.mk_graph_like(G, [[i, i + 1, rng.choice([1, 1, 2])] for i in range(n - 1)])
-            q = -1; ops = []; M = common.matrix(G)
-            for _ in range(rng.randint(2, 6)):
-                far = rng.randrange(n); comp = {far}; frontier = [far]
-                while len(comp) < rng.randint(2, 3) and frontier:
-                    v = frontier.pop(0)
-                    for w in range(n):
-                        if M[v][w] and w not in comp and len(comp) < 3: comp.add(w); frontier.append(w)
-                ops.append([2, [v for v in range(n) if v not in comp]]); ops.append([rng.choice([0, 1]), rng.randrange(n)])
         c = {"G": G, "D": common.random_divisor(rng, G, big=rng.random() < 0.2), "q": q, "ops": ops, "s": rng.randrange(1 << 30)}
         if n >= 2 and rng.random() < 0.25:      # the graph object gains an edge in the middle of the history: the divisor is older than part of its graph
             a, b = rng.sample(range(n), 2); c["grow"] = [rng.randrange(len(ops) + 1), a, b, rng.randint(1, 3)]
         out.append(c)
+    # appended family (own generator state, so that it never shifts the random stream of the histories above): firing sets that hold most of a larger
+    # graph and leave a DEEP complement (a tail whose far end has no edge into the set)
+    r2 = random.Random(rng.randrange(1 << 30))
+    for _ in range(40 if tier == "quick" else 600):
+        G = common.midsize_multigraph(r2) if r2.random() < 0.5 else common.mk_graph(r2.randint(7, 9), [], r2); n = G["n"]
+        if not G["edges"]: G = common.mk_graph_like(G, [[i, i + 1, r2.choice([1, 1, 2])] for i in range(n - 1)])
+        ops = []; M = common.matrix(G)
+        for _ in range(r2.randint(2, 6)):
+            far = r2.randrange(n); comp = {far}; frontier = [far]; size = r2.randint(2, 3)
+            while len(comp) < size and frontier:
+                v = frontier.pop(0)
+                for w in range(n):
+                    if M[v][w] and w not in comp and len(comp) < size: comp.add(w); frontier.append(w)
+            ops.append([2, [v for v in range(n) if v not in comp]]); ops.append([r2.choice([0, 1]), r2.randrange(n)])
+        out.append({"G": G, "D": common.random_divisor(r2, G), "q": -1, "ops": ops, "s": r2.randrange(1 << 30), "fam": "deepcomplement"})
     return out
 def _grown(c):
     i, a, b, k = c["grow"]; return common.mk_graph_like(c["G"], [tuple(e) for e in c["G"]["edges"]] + [(a, b, k)])
